@@ -312,3 +312,7 @@ def run(ck, F, tier):
     ck.assumptions += ['f32 multiplication by a power of two is exact and commutes with the other factors (used to identify x*0.5/4.0 with 0.125*x)',
                        'the Annex A statistics (peak error 1, mean square error bounds, mean error bounds) are NOT decided']
     rule_a(ck, F); rule_b(ck, F); rule_c(ck, F); rule_e(ck, F)
+    # the transform is handed the right blocks: level arrays, blocks per line, planes and row lengths agree between inverse_rle and idct_channel (C02's rule D)
+    from . import c02
+    from ..report import Scoped
+    c02.rule_d(Scoped(ck, 'C02.'), F)
